@@ -31,6 +31,26 @@ class Env:
     def child(self, **kw):
         return Env(parent=self, **kw)
 
+    def find(self, pred, what="variable"):
+        """Name of the unique local variable (innermost scope first) whose current value satisfies `pred`: loop contracts locate
+        the variables they talk about by *role* (what they hold), not by name, so renaming a local does not invalidate a contract."""
+        e = self
+        while e is not None:
+            hits = [k for k, v in e.vars.items() if not k.startswith("$") and _safe(pred, v)]
+            if len(hits) == 1:
+                return hits[0]
+            if len(hits) > 1:
+                raise Unsupported(f"loop contract: {len(hits)} local variables hold a {what}: {sorted(hits)}")
+            e = e.parent
+        raise Unsupported(f"loop contract: no local variable holds a {what}")
+
+
+def _safe(pred, v):
+    try:
+        return bool(pred(v))
+    except Exception:
+        return False
+
 
 class ModRef:
     """A reference to an analysed (typelib) module."""
